@@ -55,14 +55,14 @@ RISKY_KEYS = {
     'tempname': ['.I_x'],
 }
 
-JSON_VALUES = [0, 7, -3, 'v', 'w w', 2.5, None, True, [1, 'a', [2]], '02139',
+JSON_VALUES = [0, 7, -3, 'v', 'w w', 2.5, None, True, 1, 1.0, [1, 'a', [2]], '02139',
                {'$d': [['a', 1], ['b', [1]]]}, '', 'na\u00efve \u65e5\u672c']
-SQL_VALUES = [7, 'v', 2.5, None, {'$b': '0001ff'}, -3, 'w w', '', '02139', '1.10', '1e3', 'na\u00efve \u65e5\u672c']
-SRC_VALUES = [7, 'v', 2.5, None, '02139', '1.10', {'$t': [1, 'a']}, [1, {'$t': [2]}],
+SQL_VALUES = [7, 'v', 2.5, None, {'$b': '0001ff'}, -3, 'w w', '', '02139', '1.10', '1e3', 1, 1.0, {'$b': '8002580300000072656371004b018671012e'}, 'na\u00efve \u65e5\u672c']
+SRC_VALUES = [7, 'v', 2.5, None, 1, 1.0, '02139', '1.10', {'$t': [1, 'a']}, [1, {'$t': [2]}],
               {'$d': [['a', {'$t': [1]}]]}, {'$b': '6162'}, True, '', 'na\u00efve \u65e5\u672c']
 PKL_VALUES = SRC_VALUES + [{'$t': [1, {'$t': [2, 3]}]},
                            {'$d': [[1, 'a'], [{'$t': [1, 2]}, [3]]]},
-                           {'$f': 'inf'}, {'$b': '80'}, {'$s': [1, 2]},
+                           {'$f': 'inf'}, {'$b': '80'}, {'$b': '8002580300000072656371004b018671012e'}, {'$s': [1, 2]},      # (bytes that are themselves a complete pickle)
                            {'$fs': ['a']}, [[], {'$d': []}]]
 
 UNENCODABLE = {
@@ -435,7 +435,7 @@ def do_model(m, op, w):
     elif k == 'clear':
         m.clear()
     elif k == 'eq':
-        return same_dict(m, w.models[op['o']])
+        return dict_eq(m, w.models[op['o']])
     else:
         raise ValueError(k)
     return None
@@ -503,6 +503,22 @@ def do_arch(a, op, w):
 
 
 UNORDERED = ('iter', 'keys', 'values', 'items')
+
+
+def dict_eq(a, b):
+    """what `==` of two dicts gives: values compare with ==, so 1, 1.0 and True are equal (the contents checks of
+    the harness are stricter: they also compare types)"""
+    if len(a) != len(b):
+        return False
+    for k, v in a.items():
+        if k not in b:
+            return False
+        try:
+            if not (same(v, b[k]) or v == b[k]):
+                return False
+        except Exception:
+            return False
+    return True
 
 
 def compare_result(op, exp, got, m_before):
@@ -818,7 +834,7 @@ def execute(case, prop, ctx):
                         mm = {}
                         exp = call(lambda: do_model(mm, op, w))
                         if kind == 'eq':
-                            exp = ('ok', same_dict({}, w.models[op['o']] if w.cfgs[op['o']]['label'] != 'null' else {}))
+                            exp = ('ok', dict_eq({}, w.models[op['o']] if w.cfgs[op['o']]['label'] != 'null' else {}))
                     elif kind != 'popitem':
                         exp = call(lambda: do_model(m, op, w))
                     away = op.get('away') and case.get('sites')
